@@ -183,6 +183,8 @@ Section Loop.
     destruct outs as [| o outs']; [exact I |].
     destruct o; try exact I. destruct outs'; [| exact I].
     destruct (match get_unit (units s) id with Some _ => false | None => true end); [exact I |].
+    match goal with |- good (match run_slot cfg fuel ?x LPhase1 id id with _ => _ end) => destruct (run_slot cfg fuel x LPhase1 id id) as [s2 |] end;
+      [| exact I].
     match goal with |- good (match death_check cfg fuel ?x false with _ => _ end) => destruct (death_check cfg fuel x false) as [s3 |] end;
       [| exact I].
     assert (Hafter : forall s0, good (
@@ -193,10 +195,14 @@ Section Loop.
                                       | _ => [] end) outs2 ++ [VPhase2Start]) in
       match execute_queue cfg fuel s' false with
       | Ok s6 =>
-          let s7 := emit s6 [VPhase2End] in
-          match death_check cfg fuel s7 true with
+          match run_slot cfg fuel s6 LPhase2 (active_id s6) (active_id s6) with
           | None => OutOfFuel
-          | Some s8 => exit_check cfg (emit s8 [VTurnEnd (chars s8) (enemies s8)])
+          | Some s6' =>
+              let s7 := emit s6' [VPhase2End] in
+              match death_check cfg fuel s7 true with
+              | None => OutOfFuel
+              | Some s8 => exit_check cfg (emit s8 [VTurnEnd (chars s8) (enemies s8)])
+              end
           end
       | x => x
       end)).
@@ -204,6 +210,8 @@ Section Loop.
       match goal with |- good (match execute_queue cfg fuel ?x false with _ => _ end) =>
         pose proof (execute_queue_good fuel x false) as Hq; destruct (execute_queue cfg fuel x false) eqn:Eq end;
         try exact Hq; try exact I.
+      match goal with |- good (match run_slot cfg fuel ?x LPhase2 ?a ?b with _ => _ end) => destruct (run_slot cfg fuel x LPhase2 a b) end;
+        [| exact I].
       match goal with |- good (match death_check cfg fuel ?x true with _ => _ end) => destruct (death_check cfg fuel x true) end;
         [apply exit_check_good | exact I]. }
     destruct (has_flag s3 id [FLAG_DISABLE_ACTION]); [apply Hafter |].
@@ -283,6 +291,8 @@ Proof.
   destruct outs as [| o outs']; [discriminate |].
   destruct o; try discriminate. destruct outs'; [| discriminate].
   destruct (match get_unit (units s) id with Some _ => false | None => true end); [discriminate |].
+  match goal with |- match run_slot cfg fuel ?x LPhase1 id id with _ => _ end = _ -> _ => destruct (run_slot cfg fuel x LPhase1 id id) as [s2 |] end;
+    [| discriminate].
   match goal with |- match death_check cfg fuel ?x false with _ => _ end = _ -> _ => destruct (death_check cfg fuel x false) as [s3 |] end;
     [| discriminate].
   assert (Hafter : forall s0,
@@ -293,10 +303,14 @@ Proof.
                                       | _ => [] end) outs2 ++ [VPhase2Start]) in
       match execute_queue cfg fuel s1 false with
       | Ok s6 =>
-          let s7 := emit s6 [VPhase2End] in
-          match death_check cfg fuel s7 true with
+          match run_slot cfg fuel s6 LPhase2 (active_id s6) (active_id s6) with
           | None => OutOfFuel
-          | Some s8 => exit_check cfg (emit s8 [VTurnEnd (chars s8) (enemies s8)])
+          | Some s6' =>
+              let s7 := emit s6' [VPhase2End] in
+              match death_check cfg fuel s7 true with
+              | None => OutOfFuel
+              | Some s8 => exit_check cfg (emit s8 [VTurnEnd (chars s8) (enemies s8)])
+              end
           end
       | x => x
       end) = Ok s' ->
@@ -304,6 +318,8 @@ Proof.
   { intro s0. destruct (Turn.step F (turn s0) OReset) as [t2 outs2]. cbv zeta.
     match goal with |- match execute_queue cfg fuel ?x false with _ => _ end = _ -> _ =>
       destruct (execute_queue cfg fuel x false) as [s6 | | |] eqn:Eq end; try discriminate.
+    match goal with |- match run_slot cfg fuel ?x LPhase2 ?a ?b with _ => _ end = _ -> _ => destruct (run_slot cfg fuel x LPhase2 a b) as [s6' |] end;
+      [| discriminate].
     match goal with |- match death_check cfg fuel ?x true with _ => _ end = _ -> _ => destruct (death_check cfg fuel x true) as [s8 |] end;
       [| discriminate].
     intro H. apply exit_check_ok_inv in H. destruct H as [-> [Hc [He Hl]]]. auto. }
@@ -361,7 +377,7 @@ Definition demo_bad : runspec :=
 Definition demo_cfg : config :=
   mkCfg [mkUD 0 true 100 1000 100 0 1 1 TEnemies TEnemies TEnemies [];
          mkUD 0 false 100 1000 100 0 0 0 TEnemies TEnemies TEnemies []]
-        [] [] [] [] [] [] [] [] 2 10.
+        [] [] [] [] [] [] [] [] [] [] 2 10.
 
 Lemma demo_nonvacuous :
   setup demo_cat demo_ok = None /\
